@@ -168,6 +168,33 @@ pub fn interpret(steps: &[Step], tag: usize, with_points: bool) -> Vec<Obs> {
     LOG.with(|l| l.borrow().clone())
 }
 
+/// Abstract state of the catcher after a history: (enabled, open frames (catching?), a message was recorded).
+pub fn model_state(steps: &[Step]) -> (bool, Vec<bool>, bool) {
+    let mut enabled = false;
+    let mut frames: Vec<bool> = Vec::new();
+    let mut last = false;
+    for s in steps {
+        match s {
+            Step::Enable => enabled = true,
+            Step::Disable => enabled = false,
+            Step::Enter => frames.push(enabled),
+            Step::Return => {
+                frames.pop();
+            }
+            Step::Panic => {
+                while let Some(catching) = frames.pop() {
+                    if catching {
+                        last = true;
+                        break;
+                    }
+                }
+            }
+            _ => {}
+        }
+    }
+    (enabled, frames, last)
+}
+
 /// The reference machine.
 pub fn model(steps: &[Step]) -> Vec<Obs> {
     let mut out = Vec::new();
@@ -306,6 +333,45 @@ pub fn run(tier: Tier, seed: u64) -> i32 {
                 json!({"kind": "c19-sequence", "steps": steps}),
             );
         }
+    }
+
+    // ---- longer histories: BFS with one representative history per abstract catcher state ----------
+    // (sound as long as the catcher's behaviour depends only on enabled flag, frame stack and recorded
+    // message - which is exactly what every run re-validates against the reference machine)
+    {
+        let max_depth = tier.pick(8usize, 10usize);
+        let mut seen: std::collections::BTreeSet<(bool, Vec<bool>, bool)> = std::collections::BTreeSet::new();
+        seen.insert(model_state(&[]));
+        let mut frontier: Vec<Vec<Step>> = vec![vec![]];
+        let (mut bfs_states, mut bfs_transitions) = (1u64, 0u64);
+        for _d in 1..=max_depth {
+            let cands: Vec<Vec<Step>> = frontier.iter().flat_map(|h| ALPHABET.iter().map(move |s| { let mut x = h.clone(); x.push(*s); x })).collect();
+            par_for(cands.len(), ncpu(), |k| {
+                let steps = &cands[k];
+                let want = model(steps);
+                let got = run_on_fresh_thread(steps.clone(), 0);
+                run.eval(1);
+                if got.as_ref() != Ok(&want) {
+                    run.violation(
+                        format!("{ID}:sequence:{steps:?}"),
+                        format!("steps {steps:?}: observed {got:?}, reference {want:?}"),
+                        json!({"kind": "c19-sequence", "steps": steps}),
+                    );
+                }
+            });
+            let mut next = Vec::new();
+            for h in cands {
+                bfs_transitions += 1;
+                if seen.insert(model_state(&h)) {
+                    bfs_states += 1;
+                    next.push(h);
+                }
+            }
+            frontier = next;
+        }
+        run.count("bfs_states", bfs_states);
+        run.count("bfs_transitions", bfs_transitions);
+        run.set("bfs", json!({"max_history_length": max_depth, "abstract_states": bfs_states, "transitions": bfs_transitions}));
     }
 
     // ---- two threads: every pair of short sequences x every interleaving at step granularity ----
